@@ -1,5 +1,5 @@
 (* C18 instances: how much a loader pulls for well-formed files followed by arbitrary bodies. *)
-From Coq Require Import List NArith ZArith Lia Bool. From Coq Require Import Strings.Byte.
+From Coq Require Import List NArith ZArith Lia Bool Permutation. From Coq Require Import Strings.Byte.
 From PrismV Require Import IO.IO IO.IOTheory IO.Parse IO.IOTheory2 IO.Encode Meta.Meta Meta.MetaProofs Meta.WebpProofs Meta.PngProofs Meta.JpegProofs.
 Import ListNotations.
 
@@ -85,4 +85,26 @@ Proof.
   intros items H1 H2 H3 H4 H5 H6 Hn Hd. rewrite jpeg_file_head in Hd.
   eapply pulled_prefix; [apply jpeg_no_rd_once | exact Hn | exact Hd |].
   rewrite <- jpeg_file_head. apply jpeg_meta; assumption.
+Qed.
+
+(* JPEG with a profile: the needed prefix ends with the item that completes "frame header seen and all n
+   chunks seen" - whichever of the two comes last; what follows contributes at most the read-ahead *)
+Definition jpeg_head_icc (P : list jitem) (x : jitem) : list byte := soi ++ concat (map item_bytes (map enc (P ++ [x]))).
+Theorem jpeg_icc_pulled inflate (P R : list jitem) (x : jitem) (n : nat) fr sos body fuel r :
+  let jits := P ++ [x] ++ R in
+  let cs := chunks_of (P ++ [x]) in
+  1 <= n <= 255 ->
+  Permutation (map cseq cs) (map N.of_nat (seq 1 n)) -> (forall c, In c cs -> ctotal c = N.of_nat n) ->
+  sofs_of (P ++ [x]) = [fr] -> (match x with JOther _ => False | _ => True end) ->
+  Forall jitem_ok jits -> Forall item_ok (map enc jits) -> seg_ok 0xda sos -> length jits < fuel ->
+  nofail r -> src_data r = jpeg_file (map enc jits) sos body ->
+  pulled inflate (jpeg_prog fuel) r <= length (jpeg_head_icc P x) + 4095.
+Proof.
+  intros jits cs H1 H2 H3 H4 H5 H6 H7 H8 H9 Hn Hd.
+  assert (E : jpeg_file (map enc jits) sos body
+            = jpeg_head_icc P x ++ (concat (map item_bytes (map enc R)) ++ seg_bytes 0xda sos ++ body)).
+  { unfold jpeg_file, jpeg_head_icc, jits. rewrite !map_app, !concat_app, <- !app_assoc. reflexivity. }
+  rewrite E in Hd.
+  eapply pulled_prefix; [apply jpeg_no_rd_once | exact Hn | exact Hd |].
+  rewrite <- E. exact (jpeg_icc_exit_point inflate P R x n fr sos body fuel H1 H2 H3 H4 H5 H6 H7 H8 H9).
 Qed.
